@@ -18,6 +18,8 @@ import MM.Model.C10
     mdlocal <pattern> <metric>   mdrmlocal <pattern>                     Manager.AddLocalDomainRoute / RemoveLocalDomainRoute
     mflocal <key> <target> <metric>   mfrmlocal <key>                    Manager.AddLocalForwardRoute / RemoveLocalForwardRoute
     mdlook <name>   mflook <key>   malook <agent>                        Manager.LookupDomain / LookupForward / LookupAgent
+    mddisc <peer>   mfdisc <peer>   madisc <peer>                        Manager.HandlePeerDisconnectDomain / Forward / Agent
+    mnext <ip>                                                           Manager.LookupNextHop
     mdadv <from> <origin> <seq> <path> <pattern> <metric>                Manager.ProcessDomainRouteAdvertise
     mfadv <from> <origin> <seq> <path> <key> <target> <metric>           Manager.ProcessForwardRouteAdvertise
     maadv <from> <origin> <seq> <path> <agent> <metric>                  Manager.ProcessAgentRouteAdvertise
@@ -129,6 +131,16 @@ def step (st : St) (line : String) : St × String :=
       | none => (st, "none")
       | some r => (st, showHead (showEntry st.m.st.now) (get st.m.st.tab (eff r.pay)))
     | none => (st, "bad-op")
+  | ["mnext", ip] => (st, (C08.step ⟨st.self, st.m.st⟩ s!"next {ip}").2)
+  | ["mddisc", peer] =>
+    let (o', out) := C09.step st.o s!"ddisc {peer}"
+    ({ st with o := o' }, out)
+  | ["mfdisc", peer] =>
+    let (o', out) := C09.step st.o s!"fdisc {peer}"
+    ({ st with o := o' }, out)
+  | ["madisc", peer] =>
+    let (o', out) := C09.step st.o s!"adisc {peer}"
+    ({ st with o := o' }, out)
   | ["mdadv", fromP, orig, seq, path, pat, metric] =>
     let (o', out) := C09.step st.o s!"dadv {pat} {fromP} {orig} {advMetric (natTok metric)} {seq} {path}"
     ({ st with o := o' }, out)
@@ -171,14 +183,14 @@ def pathHasSelf (self : Nat) (path : String) : Bool := (parsePath path).contains
 /-- which table an op works on: `c` stand-alone CIDR table, `m` the manager's CIDR table,
     `d` / `f` / `a`, or `-` for lookups and other read-only ops -/
 def kindOf (op opline : String) : String :=
-  let readOnly := ["look", "get", "lookall", "has", "size", "routes", "dlook", "flook", "alook"]
+  let readOnly := ["look", "get", "lookall", "has", "size", "routes", "dlook", "flook", "alook", "next"]
   if readOnly.contains (op.drop 1).toString || readOnly.contains op then "-"
   else if op = "race" then C09.raceTable opline
   else if op.startsWith "c" then "c"
   else if op.startsWith "m" then
-    if ["mdadv", "mdlocal", "mdrmlocal"].contains op then "d"
-    else if ["mfadv", "mflocal", "mfrmlocal"].contains op then "f"
-    else if op = "maadv" then "a"
+    if ["mdadv", "mdlocal", "mdrmlocal", "mddisc"].contains op then "d"
+    else if ["mfadv", "mflocal", "mfrmlocal", "mfdisc"].contains op then "f"
+    else if op = "maadv" || op = "madisc" then "a"
     else "m"
   else (op.take 1).toString
 
@@ -191,7 +203,7 @@ def ruleOf (self : Nat) (op : String) (toks : List String) : String :=
     if pathHasSelf self path then "self-path-stored" else "update-rule"
   else if ["local", "dyn", "dlocal", "flocal"].contains o then "local-route-rule"
   else if ["rm", "wd", "rmlocal", "rmdyn", "drmlocal", "frmlocal"].contains o then "withdraw-inexact"
-  else if o = "disc" then "disconnect-inexact"
+  else if ["disc", "ddisc", "fdisc", "adisc"].contains o then "disconnect-inexact"
   else if o = "clean" then "cleanup-inexact"
   else if o = "clear" then "clear-inexact"
   else "clock"
